@@ -132,6 +132,9 @@ UnOp(op, x) == IF op = "-" THEN (LET a == ToNum(x) IN IF Bad(a) THEN a ELSE IF a
 
 (* result of cond ? a : b once the condition is known *)
 Scalar(v) == v.t \in {"num", "str", "bool", "null"}
+(* the literal null has no type; a null that came out of a conditional has the type of the branch it stood next to *)
+TyOf(v) == IF v.t = "null" THEN (IF "ty" \in DOMAIN v THEN v.ty ELSE "dyn") ELSE v.t
+TNull(ty) == IF ty = "dyn" THEN Null ELSE [t |-> "null", ty |-> ty]
 CondResult(c, a, b) ==
   LET cb == ToBool(c)
       sel == IF cb.t = "bool" /\ cb.v THEN a ELSE b
@@ -141,7 +144,15 @@ CondResult(c, a, b) ==
      ELSE IF IsErr(sel) THEN Err
      ELSE IF Bad(sel) \/ oth.t = "unspec" THEN Unspec
      ELSE IF IsErr(oth) THEN Unspec                                            \* an ill-typed branch that is not taken: whether it is reported is left open
-     ELSE IF oth.t = "null" \/ sel.t = "null" THEN sel                         \* nothing to unify with
+     ELSE IF (oth.t = "null" \/ sel.t = "null") /\ (~Scalar(sel) \/ ~Scalar(oth))
+          THEN (IF TyOf(sel) = "dyn" \/ TyOf(oth) = "dyn" THEN sel ELSE Unspec)   \* an untyped null next to a collection: nothing to unify with
+     ELSE IF oth.t = "null" \/ sel.t = "null"                                   \* a null takes the other branch's type - and keeps it: it unifies like a value of that type
+          THEN LET ts == TyOf(sel)
+                   to == TyOf(oth)
+                   ty == IF ts = "dyn" THEN to ELSE IF to = "dyn" THEN ts ELSE IF ts = to THEN ts ELSE IF "str" \in {ts, to} THEN "str" ELSE "none"
+               IN IF ty = "none" THEN Err
+                  ELSE IF sel.t = "null" THEN TNull(ty)
+                  ELSE IF ty = sel.t THEN sel ELSE ToStr(sel)
      ELSE IF ~Scalar(sel) \/ ~Scalar(oth) THEN (IF sel.t = oth.t /\ VEq(sel, oth) THEN sel ELSE Unspec)
      ELSE IF sel.t = oth.t THEN sel
      ELSE IF "str" \in {sel.t, oth.t} THEN ToStr(sel)                         \* a string and a number / bool unify to string
